@@ -239,6 +239,7 @@ def run(ctx):
     ctx.log('%d configurations x strings <= %d: %d cases, %s' % (len(cfgs), K, m['n'],
             {k: v for k, v in m['counters'].items() if k.startswith('same')}))
     c04_extra.run_builtin_tables(ctx)
+    c04_extra.run_codepoint_windows(ctx)
     c04_extra.run_helper_histories(ctx)
     c04_extra.run_partial(ctx)
     ctx.exhaustive = True
